@@ -333,6 +333,57 @@ def fixed_pairs(ctx, home):
             ctx.violation("breaking-accepted:%s" % name, "fixed pair %s: a documented breaking change is accepted (rc=%s)" % (name, v["rc"]), case)
         else:
             shutil.rmtree(cdir, ignore_errors=True)
+    watched_verdicts(ctx, home, cases)
+
+
+def watched_verdicts(ctx, home, cases):
+    """the verdict on a pair of versions does not depend on when it is asked: a long-running `yardl generate --watch` in the new package gives, after its
+    first pass and after each of three saves that only append a comment to the new model, the verdict class (accepted / accepted with warnings / rejected)
+    of a one-shot `yardl validate` of the same files."""
+    from props import C20
+    CLEAR = "\x1b[2J\x1b[H"
+
+    def klass(text):
+        t = cli.clean(text)
+        if "Validated model package" in t:
+            return "accept-warning" if ("WRN" in t or "\u26a0" in t) else "accept"
+        return "reject" if ("ERR" in t or "\u274c" in t) else "nothing"
+
+    def one(item):
+        name, files, _ = item
+        cdir = os.path.join(ctx.workdir, "cases", "watched_" + name)
+        shutil.rmtree(cdir, ignore_errors=True)
+        common.write_tree(cdir, files)
+        os.makedirs(os.path.join(cdir, "home"), exist_ok=True)
+        pn = cli.run_cli("validate", os.path.join(cdir, "new"), home)
+        v = verdict(pn)
+        want = "reject" if v["rc"] != 0 else ("accept-warning" if v["warnings"] else "accept")
+        w = C20.Watcher(cdir, os.path.join(cdir, "home"), common.build_yardl(), pkgdir="new")
+        got = []
+        try:
+            if not w.wait_quiescent_patient(1, limit_s=30):
+                raise Inconclusive("watched pair %s: the first pass of the watcher did not finish (alive=%s)" % (name, w.alive()))
+            for k in range(3):
+                starts = w.counts()[0]
+                with open(os.path.join(cdir, "new", "a.yml"), "a") as f:
+                    f.write("# saved again %d\n" % k)
+                if not w.wait_quiescent_patient(starts + 1, limit_s=25):
+                    raise Inconclusive("watched pair %s: no finished regeneration after save %d (alive=%s)" % (name, k, w.alive()))
+        finally:
+            w.stop()
+        text = open(os.path.join(cdir, "watch.out"), errors="replace").read()
+        got = [klass(seg) for seg in text.split(CLEAR)[1:]]
+        ctx.ev(len(got))
+        ctx.count("watched-verdicts", len(got))
+        ctx.case(("watched-pair", name))
+        if len(got) < 4:
+            raise Inconclusive("watched pair %s: %d verdicts found in the watcher's output, expected at least 4" % (name, len(got)))
+        if any(g != want for g in got):
+            ctx.violation("verdict-changes-over-time:%s" % name, "pair %s: one-shot validate says %s, a running `generate --watch` says %s after its first pass and three comment-only saves" % (name, want, got),
+                          {"case_dir": cdir, "one_shot": v, "watch_tail": cli.clean(text)[-1500:]})
+        else:
+            shutil.rmtree(cdir, ignore_errors=True)
+    pmap(one, cases, workers=4)
 
 
 def nested_wrappers(ctx, home, quick):
